@@ -3,6 +3,7 @@ package roverif
 import (
 	"context"
 	"fmt"
+	"rosim/simcontext"
 	"sort"
 	"strings"
 	"time"
@@ -111,6 +112,9 @@ func genC17ToChannel(g *Gen) *Scn {
 	if g.Bool(0.33) {
 		sc.SetInt("stall", 1)
 	}
+	// the subscription context is already over (1) or ends while values flow (2): a context that is over is
+	// not an unsubscription, the channel still carries the whole sequence
+	sc.SetInt("deadctx", g.PickInt(0, 0, 0, 1, 2))
 	return sc
 }
 
@@ -224,7 +228,7 @@ func c17Problem(sc *Scn) string {
 		if sc.Int("k", 0) < 0 {
 			return "illegal k"
 		}
-	case "C17.fromchannel":
+	case "C17.fromchannel", "C17.fanout":
 		if !wellFormed {
 			return "producer program not of the form N* C?"
 		}
@@ -236,7 +240,7 @@ func c17Problem(sc *Scn) string {
 		if c := sc.Int("cap", 0); c < 0 || c > 8 {
 			return "illegal capacity"
 		}
-		if sc.Int("subat", 0) < 0 {
+		if sc.Int("subat", 0) < 0 || sc.Int("latejoin", 0) < 0 {
 			return "illegal subat"
 		}
 	case "C17.materialize":
@@ -634,7 +638,33 @@ func runC17ToChannel(e *Env) {
 			e.Violate("C08", "tochannel-capacity-exceeded", fmt.Sprintf("ToChannel(%d): %d producer calls have returned while the consumer has recorded %d notifications (inside a receive: %v): %d waiting, more than the configured capacity allows", size, returned, len(got), receiving, ahead))
 		}
 	}
-	h := c17Subscribe(e, o, outer.Observer())
+	var h *SubHandle
+	if dc := sc.Int("deadctx", 0); dc > 0 {
+		ctx, cancel := simcontext.WithCancel(context.Background())
+		if dc == 1 {
+			cancel()
+		} else {
+			e.Go("canceller", func() {
+				simSleep(time.Duration(sc.Int("at", 1)) * Unit / 4)
+				cancel()
+			})
+		}
+		h = &SubHandle{Invoke: e.Step()}
+		h.Actor = e.Go("subscriber", func() {
+			defer func() {
+				if r := recover(); r != nil {
+					h.Panic = r
+					e.K.Log(fmt.Sprintf("Subscribe panicked: %v", r))
+				}
+			}()
+			h.S = o.SubscribeWithContext(ctx, outer.Observer())
+			h.Returned = true
+			h.RetStep = e.Step()
+			e.K.Log("Subscribe returned")
+		})
+	} else {
+		h = c17Subscribe(e, o, outer.Observer())
+	}
 
 	unsubInvokeStep, unsubReturned, unsubSkipped := 0, false, false
 	var unsubInvokeT time.Duration
